@@ -225,6 +225,11 @@ Exec ==
                               IN  Exit("ok", [w1 EXCEPT !.bal[f.ctx] = 0, !.dead = @ \cup {f.ctx},
                                                         !.burnt = @ + (IF b = f.ctx THEN amt ELSE 0)], pc + 1)
 
+\* hand-written programs (one JSON object {"prog": [...]} per line of the file) are executed without the builder
+GivenProgs(file) == ndJsonDeserialize(file)
+InitGiven == /\ \E i \in DOMAIN GivenProgs("given.ndjson") : prog = GivenProgs("given.ndjson")[i].prog
+             /\ mode = "run" /\ open = <<>> /\ pc = 1 /\ world = World0 /\ fs = <<RootFrame>> /\ out = <<>>
+
 Next == BStart \/ BSimple \/ BOpen \/ BEnd \/ Exec
 Spec == Init /\ [][Next]_vars
 
